@@ -32,13 +32,17 @@ def load_prop(prop: str):
 def exec_cases(mod, cases: list[Case]) -> None:
     """Fill impl_out / model_out of every case (model run batched in one driver process)."""
     import impl as implmod
+    track = getattr(mod, "TRACK_GLOBALS", False)
     for c in cases:
         im = implmod.Impl()
         c.impl_out = []
         ml = []
+        before = implmod.global_fingerprint() if track else None
         for line in c.lines:
             ml.append(im.model_line(line) if hasattr(im, "model_line") else line)
             c.impl_out.append(im.run(line))
+        if track and implmod.global_fingerprint() != before:
+            c.meta["global_changed"] = True          # this case changed a module/class-level table of the code
         if c.model_lines is None:
             c.model_lines = ml
     all_lines: list[str] = []
@@ -87,7 +91,7 @@ def shrink(mod, c: Case, pred) -> Case:
         while i >= 1 and budget > 0:
             cand = lines[:i] + lines[i + 1:]
             budget -= 1
-            cc = Case(c.suite, cand, None, dict(c.meta))
+            cc = Case(c.suite, cand, None, {k: v for k, v in c.meta.items() if k != "global_changed"})
             try:
                 exec_cases(mod, [cc])
                 if pred(cc):
@@ -97,7 +101,10 @@ def shrink(mod, c: Case, pred) -> Case:
                 pass
             i -= 1
     out = Case(c.suite, lines, None, dict(c.meta))
+    keep = out.meta.get("global_changed")
     exec_cases(mod, [out])
+    if keep:
+        out.meta["global_changed"] = True       # process-wide state cannot change twice in one process; a fresh replay recomputes it
     return out
 
 
